@@ -56,13 +56,13 @@ public:
     int task; std::vector<uint64_t>* log;
 };
 
-struct Recipe { uint64_t seed; int integ; double accuracy, dt; int nsteps; bool stepper, mesh, cons; int contact; };   // contact: 0 compliant (tracker subsystem), 1 GeneralContactSubsystem + HuntCrossleyForce (convex pairs)
+struct Recipe { uint64_t seed; int integ; double accuracy, dt; int nsteps; bool stepper, mesh, cons; int contact; bool pres; };   // contact: 0 compliant (tracker subsystem), 1 GeneralContactSubsystem + HuntCrossleyForce (convex pairs)
 
 struct SimTask {
     int id; Recipe rc;
     MultibodySystem sys; SimbodyMatterSubsystem matter; GeneralForceSubsystem forces; ContactTrackerSubsystem tracker; CompliantContactSubsystem contact; GeneralContactSubsystem gcs; Force::Gravity gravity;
     std::unique_ptr<Integrator> integ; std::unique_ptr<TimeStepper> ts; std::vector<uint64_t> replog;
-    int done = 0; std::vector<uint64_t> digest; HookForce* hook = nullptr;
+    int done = 0; std::vector<uint64_t> digest; HookForce* hook = nullptr; State init0;
     SimTask(int id, const Recipe& rc) : id(id), rc(rc), matter(sys), forces(sys), tracker(sys), contact(sys, tracker), gcs(sys), gravity(forces, matter, -YAxis, 9.8) { build(); }
     void build() {
         Rng r(rc.seed);
@@ -104,6 +104,9 @@ struct SimTask {
             if (general) { if (r.chance(0.6)) gcs.addBody(set, mob.back(), ContactGeometry::Ellipsoid(Vec3(rad, 0.7 * rad, 1.3 * rad)), Transform()); else gcs.addBody(set, mob.back(), ContactGeometry::Sphere(rad), Transform()); }
         }
         if (general) { HuntCrossleyForce hc(forces, gcs, set); for (int i = 0; i <= nb; ++i) hc.setBodyParameters(ContactSurfaceIndex(i), 1e5, 0.5, 0.6, 0.4, 0.1); hc.setTransitionVelocity(0.05); }
+        int presBody = -1;
+        if (rc.pres) {   // a position-level prescribed motion on the first single-coordinate mobilizer, else a lock applied to the initial state below
+            for (int b = 1; b <= nb && presBody < 0; ++b) if (MobilizedBody::Pin::isInstanceOf(mob[b]) || MobilizedBody::Slider::isInstanceOf(mob[b])) { Motion::Sinusoid(mob[b], Motion::Position, 0.2, 2.0, 0.1); presBody = b; } }
         if (rc.cons && nb >= 2) {   // a rod whose length is the distance in the default configuration, so the model assembles
             sys.realizeTopology(); State s0 = sys.getDefaultState(); sys.realize(s0, Stage::Position);
             Real d = (mob[1].findStationLocationInGround(s0, Vec3(0)) - mob[2].findStationLocationInGround(s0, Vec3(0.1, 0, 0))).norm();
@@ -116,11 +119,15 @@ struct SimTask {
         if (r.chance(0.4)) { matter.setUseEulerAngles(s, true); }
         sys.realizeModel(s);
         Vector u(s.getNU()); for (int i = 0; i < u.size(); ++i) u[i] = r.uni(-1, 1); s.updU() = u;
+        if (rc.pres && presBody < 0) mob[nb].lock(s, Motion::Position);
         integ.reset(hi::makeIntegrator(rc.integ, sys, 0.002)); integ->setAccuracy(rc.accuracy);
         if (rc.integ == 0) integ->setMaximumStepSize(0.005);
+        init0 = s;
         if (rc.stepper) { ts.reset(new TimeStepper(sys, *integ)); ts->initialize(s); } else integ->initialize(s);
         record((uint64_t)Integrator::StartOfContinuousInterval);
     }
+    // the same System, Integrator and TimeStepper objects are used for the same simulation again, from the same initial state
+    void restart() { done = 0; digest.clear(); replog.clear(); if (hook) hook->total = 0; if (ts) ts->initialize(init0); else integ->initialize(init0); record((uint64_t)Integrator::StartOfContinuousInterval); }
     void record(uint64_t status) {
         const State& s = integ->getState(); sys.realize(s, Stage::Acceleration);
         vf::Hash h; h.mix(status); h.mixd(s.getTime());
@@ -221,7 +228,7 @@ struct C46 : vf::Engine {
         int nt = r.range(2, tier == "thorough" ? 5 : 4);
         for (int k = 0; k < nt; ++k) { Op o = vf::mkop("task"); bool dup = k > 0 && r.chance(0.15);
             if (dup) { o = p.ops[r.below(k)]; } else { int integ = (int)r.below(hi::NINTEG); bool low = (integ == 0 || integ == 1 || integ == 5 || integ == 7);
-                o.set("seed", (long)(r.next() >> 16)).set("integ", integ).setr("acc", std::pow(10.0, -((low && !r.chance(0.3)) ? r.range(2, 3) : r.range(2, 5)))).setr("dt", r.pick(std::vector<double>{0.004, 0.01, 0.02, 0.04})).set("steps", r.range(3, 10)).set("stepper", r.chance(0.4) ? 1 : 0).set("mesh", r.chance(0.25) ? 1 : 0).set("cons", r.chance(0.3) ? 1 : 0).set("contact", r.chance(0.35) ? 1 : 0); }
+                o.set("seed", (long)(r.next() >> 16)).set("integ", integ).setr("acc", std::pow(10.0, -((low && !r.chance(0.3)) ? r.range(2, 3) : r.range(2, 5)))).setr("dt", r.pick(std::vector<double>{0.004, 0.01, 0.02, 0.04})).set("steps", r.range(3, 10)).set("stepper", r.chance(0.4) ? 1 : 0).set("mesh", r.chance(0.25) ? 1 : 0).set("cons", r.chance(0.3) ? 1 : 0).set("contact", r.chance(0.35) ? 1 : 0).set("pres", r.chance(0.3) ? 1 : 0); }
             p.ops.push_back(o); }
         // fresh-process comparison (a quarter of the runs): the same plan is executed in two freshly started child processes, one of
         // which first runs unrelated "prelude" simulations and library calls; each task's solo digests must agree between the two
@@ -238,7 +245,8 @@ struct C46 : vf::Engine {
             else if (w < 75) o = vf::mkop("noise").set("kind", (int)r.below(9)).set("seed", (long)(r.next() >> 40));
             else if (w < 83) o = vf::mkop("alloc").set("n", r.range(1, 40)).set("size", r.range(8, 4000));
             else if (w < 88) o = vf::mkop("perturb").set("b", (int)r.below(256));
-            else if (w < 94) o = vf::mkop("destroy").set("k", (int)r.below(nt));
+            else if (w < 92) o = vf::mkop("destroy").set("k", (int)r.below(nt));
+            else if (w < 96) o = vf::mkop("restart").set("k", (int)r.below(nt));
             else o = vf::mkop("create").set("k", (int)r.below(nt));
             p.ops.push_back(o); }
         // re-entrant switches (these are the "faults" of the schedule space: always present), callback failures only in the fault batch
@@ -248,7 +256,7 @@ struct C46 : vf::Engine {
         return p;
     }
 
-    static Recipe recipeOf(const Op& op) { Recipe rc; rc.seed = (uint64_t)op.num("seed", 1); rc.integ = (int)(op.num("integ", 3) % hi::NINTEG); rc.accuracy = std::min(0.1, std::max(1e-7, op.real("acc", 1e-3))); rc.dt = std::max(1e-3, op.real("dt", 0.01)); rc.nsteps = (int)std::max(1L, std::min(40L, op.num("steps", 5))); rc.stepper = op.num("stepper", 0) != 0; rc.mesh = op.num("mesh", 0) != 0; rc.cons = op.num("cons", 0) != 0; rc.contact = (int)op.num("contact", 0) % 2; return rc; }
+    static Recipe recipeOf(const Op& op) { Recipe rc; rc.seed = (uint64_t)op.num("seed", 1); rc.integ = (int)(op.num("integ", 3) % hi::NINTEG); rc.accuracy = std::min(0.1, std::max(1e-7, op.real("acc", 1e-3))); rc.dt = std::max(1e-3, op.real("dt", 0.01)); rc.nsteps = (int)std::max(1L, std::min(40L, op.num("steps", 5))); rc.stepper = op.num("stepper", 0) != 0; rc.mesh = op.num("mesh", 0) != 0; rc.cons = op.num("cons", 0) != 0; rc.contact = (int)op.num("contact", 0) % 2; rc.pres = op.num("pres", 0) != 0; return rc; }
 
     // ---- fresh-process comparison: run the plan in two newly started processes (with and without the prelude) and compare
     struct ChildOut { bool ok = false; Result res; std::map<std::pair<int, int>, uint64_t> solo; std::string raw; };
@@ -334,6 +342,8 @@ struct C46 : vf::Engine {
                 if (op.kind == "task" || op.kind == "prelude" || op.kind == "prenoise") continue;
                 if (op.kind == "step") stepTask((int)op.num("k", 0) % nt, (int)std::max(1L, op.num("n", 1)));
                 else if (op.kind == "create") create((int)op.num("k", 0) % nt);
+                else if (op.kind == "restart") { int k = (int)op.num("k", 0) % nt; if (S.tasks[k] && S.tasks[k]->done >= 1 && !S.faulted.count(k)) { compare(k);
+                        try { S.tasks[k]->restart(); res.count("probe_same_objects_reused_for_a_second_run"); } catch (const std::exception& e) { if (refOk[k]) res.fail("task-fails-only-when-interleaved", "restart", std::string("task ") + std::to_string(k) + " ran alone but could not be initialized again on the same objects: " + e.what()); } } }
                 else if (op.kind == "destroy") { int k = (int)op.num("k", 0) % nt; if (S.tasks[k]) { compare(k); bool mid = S.tasks[k]->done < S.recipes[k].nsteps; S.tasks[k].reset(); if (mid) res.count("probe_task_destroyed_while_others_continue"); } }
                 else if (op.kind == "noise") { S.enabled = false; uint64_t g = noise((int)op.num("kind", 0), (uint64_t)op.num("seed", 1)); S.enabled = true; S.checkNoise((int)op.num("kind", 0), (uint64_t)op.num("seed", 1), g, "interleaved between simulation steps"); res.count("noise_calls"); }
                 else if (op.kind == "alloc") { int n = (int)op.num("n", 1); size_t sz = (size_t)std::max(1L, op.num("size", 64)); if (junk.size() > 200) junk.erase(junk.begin(), junk.begin() + 100); for (int i = 0; i < n; ++i) { junk.emplace_back(new char[sz]); std::memset(junk.back().get(), 0x5a + i, sz); } }
